@@ -64,7 +64,7 @@ func cmdFn(args []string) {
 		for _, k := range keys {
 			fn := P.funcs[k]
 			t1 := time.Now()
-			vc := P.verify(fn, *timeout, 8, *keep, *noinline)
+			vc := P.verify(fn, *timeout, 8, *keep, *noinline, nil)
 			if vc.err != nil {
 				fmt.Printf("%-60s UNSUPPORTED %v\n", k, vc.err)
 				continue
@@ -82,8 +82,11 @@ func cmdFn(args []string) {
 					nOK++
 				}
 			}
-			fmt.Printf("%-60s %d/%d discharged (gen %v, total %v)\n", k, nOK, len(vc.obligs), gen.Round(time.Millisecond), time.Since(t1).Round(time.Millisecond))
+			fmt.Printf("%-60s %d/%d discharged (gen %v, total %v) %s\n", k, nOK, len(vc.obligs), gen.Round(time.Millisecond), time.Since(t1).Round(time.Millisecond), vc.Vacuity)
 			for _, o := range vc.obligs {
+				if o.Status == "unsat" && o.Ms > 1500 {
+					fmt.Printf("    slow %dms %s %s\n", o.Ms, o.Solver, o.Name)
+				}
 				if o.Status != "unsat" {
 					fmt.Printf("    %-8s %s  [%s:%d] %s\n", o.Status, o.Name, o.Pos.Filename[strings.LastIndex(o.Pos.Filename, "/")+1:], o.Pos.Line, o.Solver)
 					if *doReplay && o.Status == "sat" {
